@@ -65,14 +65,22 @@ Qed.
 Lemma ip6_hdr_length pl nh hop s d : length s = 16%nat -> length d = 16%nat -> length (ip6_hdr pl nh hop s d) = 40%nat.
 Proof. intros Hs Hd. unfold ip6_hdr. cbn [app length]. rewrite app_length, Hs, Hd. reflexivity. Qed.
 
-Lemma ip6_payload_frame pl nh hop s d (B T : bytes) :
-  length s = 16%nat -> length d = 16%nat ->
-  ip6_payload (mkSlice (ip6_hdr pl nh hop s d ++ B ++ T) (40 + length B)) = Ok (mkSlice (B ++ T) (length B)).
+Lemma ip6_payload_frame nh hop s d (B T : bytes) :
+  length s = 16%nat -> length d = 16%nat -> N.of_nat (length B) < 65536 ->
+  ip6_payload (mkSlice (ip6_hdr (N.of_nat (length B)) nh hop s d ++ B ++ T) (40 + length B)) = Ok (mkSlice (B ++ T) (length B)).
 Proof.
-  intros Hs Hd. unfold ip6_payload, slfrom. cbn [len arr].
+  intros Hs Hd Hsz.
+  assert (Hl : length (ip6_hdr (N.of_nat (length B)) nh hop s d) = 40%nat) by (apply ip6_hdr_length; assumption).
+  unfold ip6_payload, ip6_payloadlen, be16_at, sl, cap. cbn [arr len].
+  rewrite !app_length, Hl.
+  destruct (Nat.leb_spec (4 + 2) (40 + (length B + length T))) as [_|C]; [|lia]. cbn [bind].
+  assert (E : be16 (nth 4 (ip6_hdr (N.of_nat (length B)) nh hop s d ++ B ++ T) 0)
+                   (nth (4 + 1) (ip6_hdr (N.of_nat (length B)) nh hop s d ++ B ++ T) 0) = N.of_nat (length B)).
+  { rewrite !app_nth1 by (rewrite Hl; lia). unfold ip6_hdr. cbn [app nth Nat.add]. apply be16_hi_lo. exact Hsz. }
+  rewrite E, Nat2N.id.
   destruct (Nat.leb_spec 40 (40 + length B)) as [_|C]; [|lia].
-  rewrite skipn_app_len by (apply ip6_hdr_length; assumption).
-  f_equal. f_equal. lia.
+  destruct (Nat.leb_spec (40 + length B) (40 + (length B + length T))) as [_|C]; [|lia]. cbn [andb].
+  rewrite skipn_app_len by exact Hl. f_equal. f_equal. lia.
 Qed.
 
 Definition frame6_bytes (smac dmac : bytes) (hop : N) (s16 d16 : bytes) (sp dp : N) (data : bytes) : bytes :=
@@ -98,7 +106,7 @@ Proof.
   set (r54 := skipn 40 r14).
   assert (H54 : length r54 = (cap b - 54)%nat) by (unfold r54; rewrite skipn_length; blia).
   assert (Hpl : ip6_payload (mkSlice (ip6_hdr 0 59 hop (as16 sip) (as16 dip) ++ r54) 40) = Ok (mkSlice r54 0)).
-  { pose proof (ip6_payload_frame 0 59 hop (as16 sip) (as16 dip) [] r54 Hs16 Hd16) as E. cbn [app length Nat.add] in E.
+  { pose proof (ip6_payload_frame 59 hop (as16 sip) (as16 dip) [] r54 Hs16 Hd16 ltac:(cbn; lia)) as E. cbn [app length Nat.add N.of_nat] in E.
     exact E. }
   rewrite Hpl. cbn [bind].
   rewrite encode_udp_bytes by (unfold cap; cbn [arr]; blia). cbn [bind arr].
@@ -144,12 +152,12 @@ Proof.
   cbn [nth] in Huni.
   set (pl := N.of_nat (8 + length data)).
   assert (Hpl : pl < 65536) by (unfold pl; lia).
-  assert (Eu : N.to_nat (u16 (pl + 40)) = (48 + length data)%nat) by (unfold u16, pl; rewrite N.mod_small by lia; lia).
+  assert (Epl' : N.to_nat pl = (8 + length data)%nat) by (unfold pl; lia).
   unfold frame6_bytes, ether_hdr, ip6_hdr, udp_hdr. fold pl. cbn [app].
   unfold parse_class, parse_udp_at, ether_is_valid, ether_src, ether_hlen, ether_type, ip6_is_valid, ip6_payloadlen,
     ip6_nextheader, udp_is_valid, udp_srcport, udp_dstport, idx, be16_at, sl, slfrom, cap.
   run. rewrite Huni. change (0 =? 0) with true. cbn [negb]. run.
-  rewrite Nat.eqb_refl. cbn [negb]. change (17 =? IPPROTO_UDP) with true. cbn iota. reflexivity.
+  change (17 =? IPPROTO_UDP) with true. cbn iota. reflexivity.
 Qed.
 
 
@@ -223,6 +231,6 @@ Proof.
     apply ether_payload_frame; try assumption; try reflexivity. lia. }
   split. { rewrite Hep. cbn [bind]. exact D6lib. }
   rewrite Hep. cbn [bind].
-  unfold IH. rewrite ip6_payload_frame by assumption. cbn [bind].
+  unfold IH. rewrite Epl. rewrite ip6_payload_frame by (try assumption; lia). cbn [bind].
   rewrite Hub. unfold udpb. rewrite <- app_assoc. exact DUlib.
 Qed.
